@@ -126,5 +126,75 @@ pub fn run(ctx: &mut Ctx) {
             let refl = h.to_dev.clone();
             variants_to(ctx, &mut h, false, &(resp, rd), &olds, &refl, &b_to_rdr);
         }
+        // systematic small scope: w messages produced but withheld, then junk (nothing / status-only
+        // frames / a tampered ciphertext), then delivery of the j-th withheld one -- both directions
+        for w in 1..=3usize {
+            h.save(ctx);
+            // reader -> device
+            let mut produced = vec![];
+            for _ in 0..w { let m = h.new_request(ctx, &["family_name"]); produced.push((m, h.to_dev.last().unwrap().1.clone())); }
+            h.save_slot(ctx, 1);
+            for junk in 0..5 {
+                for j in 0..w {
+                    h.load_slot(ctx, 1);
+                    match junk { 1 => h.deliver_dev_c06(ctx, &crate::hist::status_only(0), "nodata", None, "pattern"),
+                                 2 => { h.deliver_dev_c06(ctx, &crate::hist::status_only(2), "nodata", None, "pattern"); h.deliver_dev_c06(ctx, &crate::hist::status_only(1), "nodata", None, "pattern") }
+                                 3 => { let t = sess::tamper(&produced[0].0, 77); h.deliver_dev_c06(ctx, &t, &tdesc(&produced[0].1), None, "pattern") }
+                                 4 => h.deliver_dev_c06(ctx, &[0x01, 0x02], "garbage", None, "pattern"),
+                                 _ => {} }
+                    let (m, d) = produced[j].clone();
+                    h.deliver_dev_c06(ctx, &m, &d, None, "pattern");
+                    // and the replay of the same message right after
+                    h.deliver_dev_c06(ctx, &m, &d, None, "pattern");
+                }
+            }
+            h.load(ctx);
+            // device -> reader: w responses produced, none delivered
+            let mut produced = vec![];
+            for _ in 0..w { h.prepare(ctx, &docs); h.submit(ctx, false); let m = h.retrieve(ctx).unwrap(); produced.push((m, h.to_rdr.last().unwrap().1.clone())); }
+            h.save_slot(ctx, 2);
+            for junk in 0..5 {
+                for j in 0..w {
+                    h.load_slot(ctx, 2);
+                    match junk { 1 => h.deliver_rdr_c06(ctx, &crate::hist::status_only(0), "nodata", None, "pattern"),
+                                 2 => { h.deliver_rdr_c06(ctx, &crate::hist::status_only(2), "nodata", None, "pattern"); h.deliver_rdr_c06(ctx, &crate::hist::status_only(3), "nodata", None, "pattern") }
+                                 3 => { let t = sess::tamper(&produced[0].0, 77); h.deliver_rdr_c06(ctx, &t, &tdesc(&produced[0].1), None, "pattern") }
+                                 4 => h.deliver_rdr_c06(ctx, &[0x01, 0x02], "garbage", None, "pattern"),
+                                 _ => {} }
+                    let (m, d) = produced[j].clone();
+                    h.deliver_rdr_c06(ctx, &m, &d, None, "pattern");
+                    h.deliver_rdr_c06(ctx, &m, &d, None, "pattern");
+                }
+            }
+            h.load(ctx);
+        }
+        // adversarial SEQUENCES (no reload in between): rejected frames, status-only frames, replays of
+        // accepted messages, withheld and late messages, mixed with honest progress
+        let steps = if ctx.thorough { 200 } else { 60 };
+        for _ in 0..steps {
+            match ctx.rng.gen_range(0..12) {
+                0 | 1 => { h.new_request(ctx, &["family_name"]); }
+                2 | 3 => { // deliver some reader message (latest or older) to the device
+                    let i = if ctx.rng.gen_bool(0.6) { h.to_dev.len() - 1 } else { ctx.rng.gen_range(0..h.to_dev.len()) };
+                    let (m, d) = h.to_dev[i].clone();
+                    h.deliver_dev_c06(ctx, &normalise(&m), &d, None, "sequence");
+                }
+                4 => { let i = ctx.rng.gen_range(0..h.to_dev.len()); let (m, d) = h.to_dev[i].clone();
+                       let t = sess::tamper(&normalise(&m), ctx.rng.gen_range(0..4096)); h.deliver_dev_c06(ctx, &t, &tdesc(&d), None, "sequence"); }
+                5 => { let m = crate::hist::status_only(ctx.rng.gen_range(0..4)); h.deliver_dev_c06(ctx, &m, "nodata", None, "sequence"); }
+                6 => { h.prepare(ctx, &docs); h.submit(ctx, false); h.retrieve(ctx); }
+                7 | 8 => { if !h.to_rdr.is_empty() {
+                    let i = if ctx.rng.gen_bool(0.6) { h.to_rdr.len() - 1 } else { ctx.rng.gen_range(0..h.to_rdr.len()) };
+                    let (m, d) = h.to_rdr[i].clone();
+                    h.deliver_rdr_c06(ctx, &m, &d, None, "sequence"); } }
+                9 => { if !h.to_rdr.is_empty() { let i = ctx.rng.gen_range(0..h.to_rdr.len()); let (m, d) = h.to_rdr[i].clone();
+                       let t = sess::tamper(&m, ctx.rng.gen_range(0..4096)); h.deliver_rdr_c06(ctx, &t, &tdesc(&d), None, "sequence"); } }
+                10 => { let m = crate::hist::status_only(ctx.rng.gen_range(0..4)); h.deliver_rdr_c06(ctx, &m, "nodata", None, "sequence"); }
+                _ => { // cross-session / reflected
+                    if ctx.rng.gen_bool(0.5) && !b_to_dev.is_empty() { let (m, d) = b_to_dev[ctx.rng.gen_range(0..b_to_dev.len())].clone(); h.deliver_dev_c06(ctx, &normalise(&m), &d, None, "sequence"); }
+                    else if !h.to_rdr.is_empty() { let (m, d) = h.to_rdr[ctx.rng.gen_range(0..h.to_rdr.len())].clone(); h.deliver_dev_c06(ctx, &m, &d, None, "sequence"); }
+                }
+            }
+        }
     }
 }
